@@ -208,6 +208,7 @@ def run(case):
     ir = F.ir_from_json(case["ir"])
     fmts = [tuple(case["fmt"])] if "fmt" in case else FORMATS
     viol, outcomes, transitions, n = [], set(), 0, 0
+    untyped = any(not p.get("typ") for p in ir["params"].values())
     for fmt, style, kw in fmts:
         if not applicable(fmt, style, ir):
             continue
@@ -217,6 +218,7 @@ def run(case):
         outcomes.add(outcome)
         for v in vs:
             v["case"] = dict(key=case.get("key"), ir=case["ir"], fmt=[fmt, style, kw])
+            v["sig"]["untyped_param"] = untyped
         viol.extend(vs)
     return dict(outcome="+".join(sorted(outcomes)), transitions=transitions, evaluations=max(n, 1), nontrivial=n, violations=viol)
 
